@@ -30,6 +30,8 @@ func main() {
 	repo := flag.String("repo", "/repo", "repository directory")
 	verif := flag.String("verif", "/verif", "verification directory (evidence/, out/, known_findings.json)")
 	dump := flag.String("dump", "", "debug: roots|funcs|calls:<fn>")
+	outDir := flag.String("outdir", "", "write evidence/ and out/ below this directory instead of -verif (used when trying seeded variants)")
+	noCanary := flag.Bool("nocanary", false, "skip the canaries (used when trying seeded variants)")
 	list := flag.String("list", "", "debug: print every obligation whose construct contains this substring ('*' = all)")
 	flag.Parse()
 	if t := os.Getenv("VERIF_TIER"); t != "" && !isFlagSet("tier") {
@@ -100,7 +102,9 @@ func main() {
 		c.Level = pc.Level
 		c.Measured["root_packages"] = u.NPkgs
 		c.Measured["mq_files"] = len(prog.Files)
+		thoroughMode = *tier == "thorough"
 		pc.Run(prog, c)
+		thoroughMode = false
 		if *list != "" {
 			for _, o := range c.Obls {
 				if *list == "*" || strings.Contains(o.Construct, *list) || strings.Contains(o.Rule, *list) {
@@ -108,11 +112,17 @@ func main() {
 				}
 			}
 		}
-		runCanaries(u, pc, c, *verif)
+		if !*noCanary {
+			runCanaries(u, pc, c, *verif)
+		}
 		if *tier == "thorough" {
 			runThorough(u, *repo, pc, c, *verif)
 		}
-		if code := c.finish(*verif, *tier, seed, t0, known, cmdline); code > exit {
+		od := *verif
+		if *outDir != "" {
+			od = *outDir
+		}
+		if code := c.finish(od, *tier, seed, t0, known, cmdline); code > exit {
 			exit = code
 		}
 	}
